@@ -322,4 +322,102 @@ theorem other_links_unaffected (c : Cfg) (t p : Nat) (rhs : Rhs) (w w' : World) 
         obtain ⟨h1, _, h3, tg', h4, _, h6⟩ := setInst_frame htg hs
         exact ⟨h1, h3, tg', h4, h6⟩
 
+/-- **C08, constructor = later assignment.**  Constructing the object with keyword links
+`T(k1=r1, …)` and constructing it bare and then assigning `t.k1 = r1; …` in the same order lead
+to the *same world*: same values, same refs table, same `_sync_refs` watchers in the same
+registration order on every source — hence the same behaviour under every later history.  (For
+parameters that may be assigned after construction at all: not constant, not readonly.) -/
+theorem ctor_and_late_links_equivalent (c : Cfg) (dflt : List Val) (kws : List (Nat × Rhs)) (w w1 : World)
+    (hfresh : ∀ (s : Nat) (ws : List (Nat × List Nat)) (names : List Nat), w.watch[s]? = some ws → (w.tgts.length, names) ∉ ws)
+    (hlen : ∀ ds, c.decls[w.tgts.length]? = some ds → ds.length ≤ dflt.length)
+    (hkeys : (kws.map (·.1)).Nodup)
+    (hfree : ∀ kv ∈ kws, ∀ d, c.decl w.tgts.length kv.1 = some d → d.constant = false ∧ d.readonly = false)
+    (hc : construct c dflt kws w = (.ok, w1)) :
+    ∃ w0, construct c dflt [] w = (.ok, w0) ∧
+      runOps c (kws.map fun kv => .set w.tgts.length kv.1 kv.2) w0 = w1 :=
+  ctor_late_equiv hfresh hlen hkeys hfree hc
+
+/-! ### witnesses: the hypotheses are satisfiable, and the two `_full` statements are false -/
+
+namespace Example08
+
+/-- T0: p0 Integer(bounds=(0,10)), p1 Integer, p2 Range(bounds=(0,10), nested_refs) — all allow_refs -/
+def c : Cfg := { F := fun k xs => k + xs.foldl (· + ·) 0, nsp := 2,
+                 decls := [[{ kind := .int, lo := some 0, hi := some 10, constant := false, readonly := false, allowRefs := true, nestedRefs := false },
+                            { kind := .int, lo := none, hi := none, constant := false, readonly := false, allowRefs := true, nestedRefs := false },
+                            { kind := .pair, lo := some 0, hi := some 10, constant := false, readonly := false, allowRefs := true, nestedRefs := true }]] }
+
+def dflt : List Val := [.int 0, .int 0, .tup [0, 0]]
+def init : World := { src := [[1, 2], [3, 4]], watch := [[], []], tgts := [], stack := [] }
+
+/-- `T0(p0=S0.param.v0, p1=S0.param.v0, p2=(S0.param.v0, bind(f_0, S1.param.v1)))` -/
+def kws1 : List (Nat × Rhs) := [(0, .atom (.par 0 0)), (1, .atom (.par 0 0)), (2, .cont [.par 0 0, .fn [(1, 1)] 0 false])]
+def w1 : World := (construct c dflt kws1 init).2
+def d1 : PDecl := { kind := .int, lo := none, hi := none, constant := false, readonly := false, allowRefs := true, nestedRefs := false }
+
+theorem hlen0 (w : World) (hw : w.tgts.length = 0) : ∀ ds, c.decls[w.tgts.length]? = some ds → ds.length ≤ dflt.length := by
+  intro ds h; rw [hw] at h; simp [c] at h; subst h; decide
+
+theorem w1_reachable (strict : Bool) : Reachable c strict w1 :=
+  .construct dflt kws1 (.init [[1, 2], [3, 4]]) (hlen0 _ rfl) (by decide)
+
+/-- a reachable world with three live links of three kinds: the invariant theorem is not vacuous -/
+example : Reachable c true w1 ∧ w1.tgts.map (·.refs.length) = [3] ∧
+    w1.tgts.map (·.vals) = [[some (.int 1), some (.int 1), some (.tup [1, 4])]] := ⟨w1_reachable true, by decide, by decide⟩
+
+/-- an ordinary source update propagates into all three -/
+example : (step c (.srcSet 0 0 5) w1).1 = .ok ∧
+    (step c (.srcSet 0 0 5) w1).2.1.tgts.map (·.vals) = [[some (.int 5), some (.int 5), some (.tup [5, 4])]] := by decide
+
+/-- `S0.v0 = 50`: invalid for p0 (bounds), valid for p1 — the update raises out of `_sync_refs` at p0 and
+p1 is never written -/
+def w2 : World := (step c (.srcSet 0 0 50) w1).2.1
+
+example : (step c (.srcSet 0 0 50) w1).1 = .raised .value ∧
+    w2.src = [[50, 2], [3, 4]] ∧ w2.tgts.map (·.vals) = [[some (.int 1), some (.int 1), some (.tup [1, 4])]] := by decide
+
+theorem linked_value_tracks_reference_full_refuted : ¬ linked_value_tracks_reference_full := by
+  intro hfull
+  have hr : Reachable c false w2 := .step _ (w1_reachable false) (fun h => by cases h)
+  have := hfull c w2 hr 0 ⟨[some (.int 1), some (.int 1), some (.tup [1, 4])], dflt,
+      [(0, .atom (.par 0 0)), (1, .atom (.par 0 0)), (2, .cont [.par 0 0, .fn [(1, 1)] 0 false])]⟩
+    1 (.atom (.par 0 0)) d1 (.int 50) (by decide) (by decide) (by decide) (by decide) (by decide)
+  revert this; decide
+
+/-- `t.p0 = 5` (plain) on `T0(p0=S0.param.v0)`: the link is gone, the watcher on S0.v0 is not -/
+def v1 : World := (construct c dflt [(0, .atom (.par 0 0))] init).2
+def v2 : World := (step c (.set 0 0 (.atom (.lit 5))) v1).2.1
+
+example : (step c (.set 0 0 (.atom (.lit 5))) v1).1 = .ok ∧ v2.tgts.map (·.refs) = [[]] ∧ v2.watch = [[(0, [0])], []] := by decide
+
+theorem old_sources_keep_no_watcher_full_refuted : ¬ old_sources_keep_no_watcher_full := by
+  intro hfull
+  have hr : Reachable c true v1 := .construct dflt [(0, .atom (.par 0 0))] (.init [[1, 2], [3, 4]]) (hlen0 _ rfl) (by decide)
+  have hex : Exact c v1 0 := by
+    intro s ws names i hws hmem hin
+    have hw : v1.watch = [[(0, [0])], []] := by decide
+    rw [hw] at hws
+    match s, hws with
+    | 0, hws =>
+      simp at hws; subst hws
+      simp at hmem; subst hmem
+      simp at hin; subst hin
+      exact ⟨⟨[some (.int 1), none, none], dflt, [(0, .atom (.par 0 0))]⟩, 0, .atom (.par 0 0), by decide, by decide, by decide⟩
+    | 1, hws => simp at hws; subst hws; cases hmem
+    | s + 2, hws => simp at hws
+  have hstep : step c (.set 0 0 (.atom (.lit 5))) v1 = (.ok, v2, (step c (.set 0 0 (.atom (.lit 5))) v1).2.2) := by decide
+  have := hfull c 0 0 _ v1 v2 _ hr hex hstep 0 [(0, [0])] [0] 0 (by decide) (by decide) (by decide)
+  obtain ⟨tg, q, r, h1, h2, _⟩ := this
+  have htg : v2.tgts[0]? = some ⟨[some (.int 5), none, none], dflt, []⟩ := by decide
+  rw [htg] at h1; cases h1; cases h2
+
+/-- relinking instead (`t.p0 = S1.param.v0`) moves the watcher -/
+example : (step c (.set 0 0 (.atom (.par 1 0))) v1).2.1.watch = [[], [(0, [0])]] := by decide
+
+/-- constructor and late links give the same world -/
+example : runOps c [.set 0 0 (.atom (.par 0 0)), .set 0 1 (.atom (.par 0 0)), .set 0 2 (.cont [.par 0 0, .fn [(1, 1)] 0 false])]
+    (construct c dflt [] init).2 = w1 := by decide
+
+end Example08
+
 end ParamVerif.Refs
